@@ -110,9 +110,18 @@ def cases(tier, seed):
     for cls, size, w, k in (_Q_AUTO if tier == 'quick' else _T_AUTO):
         for i in range(k):
             auto.append({'part': 'automaton', 'cls': cls, 'size': size, 'max_w': w, 'shard': [i, k]})
+    cross = []
+    pairs = [('Planar3DCode', 'Toric3DCode'), ('RotatedPlanar3DCode', 'RotatedToric3DCode')]
+    for a, bcls in pairs:
+        for size in ([2, 2, 2], [3, 3, 3], [2, 3, 4]) if tier == 'quick' else \
+                ([2, 2, 2], [3, 3, 3], [2, 3, 4], [4, 3, 2], [3, 2, 3], [4, 4, 4]):
+            if not (F.in_family(a, size) and F.in_family(bcls, size)):
+                continue
+            cross.append({'part': 'cross', 'seq': [[a, size], [bcls, size]]})
+            cross.append({'part': 'cross', 'seq': [[bcls, size], [a, size]]})
     n_small = sum(1 for a in auto if a['size'] == [2, 2, 2])
     head = len(GEOMETRY_CLASSES)
-    return geo[:head] + auto[:n_small] + geo[head:] + auto[n_small:]
+    return geo[:head] + auto[:n_small] + geo[head:] + auto[n_small:] + cross
 
 
 # ---------------------------------------------------------------- shared reference
@@ -515,7 +524,36 @@ def _automaton(case):
     return res
 
 
+def _cross(case):
+    """Several lattices handled one after the other in ONE process (a session that decodes a planar and
+    then a toric code of the same size, or two sizes of one code): the geometry of each must be what it is
+    when handled alone.  Decoder objects are fresh each time; only process-level state can carry over."""
+    total = None
+    for pos, (cls, size) in enumerate(case['seq']):
+        r = _geometry({'part': 'geometry', 'cls': cls, 'sizes': [size]})
+        for v in r.get('violations', []):
+            v['key']['part'] = 'cross'
+            v['key']['position'] = pos
+            v['detail']['handled_before'] = [list(map(str, x)) for x in case['seq'][:pos]]
+        if total is None:
+            total = r
+        else:
+            for k, val in r.items():
+                if isinstance(val, int):
+                    total[k] = total.get(k, 0) + val
+                elif isinstance(val, list):
+                    total[k] = total.get(k, []) + val
+                elif isinstance(val, dict):
+                    for kk, vv in val.items():
+                        total[k][kk] = total[k].get(kk, 0) + vv
+    total['samples'] = [{'cross_sequence': case['seq']}]
+    total['outcomes'] = total.get('outcomes', [])[:50]
+    return total
+
+
 def eval_case(case):
     if case['part'] == 'geometry':
         return _geometry(case)
+    if case['part'] == 'cross':
+        return _cross(case)
     return _automaton(case)
